@@ -3,6 +3,7 @@
 package snaps
 
 import (
+	"bytes"
 	"encoding/json"
 	"fmt"
 	"os"
@@ -42,7 +43,9 @@ func (cs *c02Case) UnmarshalJSON(b []byte) error {
 }
 
 var c02JSONDocs = []string{`1`, `2`, `"a"`, `"---"`, `"/-/-/-/"`, `null`, `true`, `[]`, `{}`, `[1]`, `[1,2]`, `[2,1]`, `{"a":1}`, `{"a":2}`, `{"b":1}`,
-	`{"a":1,"b":2}`, `{"a":{"b":1}}`, `{"a":[1]}`, `"a\\u00ffb"`, `"a b"`, `"a  b"`, `1.0`, `1e1`, `10`}
+	`{"a":1,"b":2}`, `{"a":{"b":1}}`, `{"a":[1]}`, `"a\\u00ffb"`, `"a b"`, `"a  b"`, `1.0`, `1e1`, `10`,
+	// different texts that decode to the same float64 / the same Go value
+	`9007199254740993`, `9007199254740992`, `{"id":1234567890123456789}`, `{"id":1234567890123456788}`, `0.1`, `0.1000000000000000000001`, `{"a":1,"a":2}`, `[1,1,1,1,1,1,1,1]`, `[1,1,1,1,1,1,1,1,1]`}
 
 var c02YAMLDocs = []string{"a: 1", "a: 1\n", "a: 1\n\n", "a: 2\n", "a:  1\n", "a: 1 # c\n", "# c\na: 1\n", "a: 1\n---\nb: 2\n", "/-/-/-/\n", "---\n", "a\n---\nb\n", "a\n/-/-/-/\nb\n",
 	"- x\n", "- x\n- y\n", "k: |\n  ---\n", "k: |\n  /-/-/-/\n", "a: \"1\"\n", "b: 1\n"}
@@ -161,6 +164,15 @@ func c02Gen(c *vfCtx, emit func(c02Case)) {
 			}
 		}
 	}
+	// the recorded FILE as other tools leave it: without the final newline, or with CR LF line ends (a checkout with autocrlf)
+	for _, api := range []string{"snap", "json", "yaml"} {
+		vals := map[string][2]string{"snap": {"a\nb", "a\nc"}, "json": {`{"a":1}`, `{"a":2}`}, "yaml": {"a: 1\nb: 2\n", "a: 1\nb: 3\n"}}[api]
+		for _, color := range []bool{false, true} {
+			for _, fm := range []string{"file-nofinalnl", "file-crlf"} {
+				emit(c02Case{API: api, S: vals[0], R: vals[1], Color: color, Mode: fm})
+			}
+		}
+	}
 	// stored texts with a carriage return at the end of a line (known finding K14: the line reader drops it; a line `---\r` even ends the entry)
 	crs := []string{"a", "a\r", "a\r\nb", "a\nb", "a\n---\r\nb", "a\n---\r", "---\r\nb", "a\r\n", "a\n", "a\r\r\nb", "a\r\nb\r"}
 	for _, color := range []bool{false, true} {
@@ -260,6 +272,10 @@ var c02Cache c02Recorded
 
 func c02Run(c *vfCtx, cs c02Case) {
 	ci, env, upd := false, "", ""
+	fileMode := ""
+	if strings.HasPrefix(cs.Mode, "file-") {
+		fileMode = cs.Mode
+	}
 	switch cs.Mode {
 	case "false":
 		upd = "false"
@@ -280,7 +296,7 @@ func c02Run(c *vfCtx, cs c02Case) {
 		c.count("pairs_formatting_identically", 1)
 		return
 	}
-	key := cs.API + "\x00" + cs.S
+	key := cs.API + "\x00" + cs.S + "\x00" + fileMode
 	if vfSpecial(cs.S) || vfSpecial(cs.R) {
 		c.addSet("nontrivial", vfHashJSON(cs))
 	}
@@ -306,6 +322,16 @@ func c02Run(c *vfCtx, cs c02Case) {
 			c.violation(class, fmt.Sprintf("record(%q) signalled %s %v", vfClip(cs.S), o, t.errs), cs)
 			c02Cache.key = ""
 			return
+		}
+		if fileMode != "" {
+			p := filepath.Join(dir, "f.snap")
+			b, _ := os.ReadFile(p)
+			if fileMode == "file-nofinalnl" {
+				b = bytes.TrimSuffix(b, []byte("\n"))
+			} else {
+				b = bytes.ReplaceAll(b, []byte("\n"), []byte("\r\n"))
+			}
+			os.WriteFile(p, b, 0o644)
 		}
 		vfPlantSentinel(dir)
 		c02Cache = c02Recorded{key: key, dir: dir, before: vfSnapDir(dir)}
